@@ -120,7 +120,15 @@ ReadFresh(b, timeout) ==
 Read == \E b \in CallerBufs :
           \/ ReadRem(b) /\ act' = [a |-> "Read", x |-> b, to |-> TRUE]
           \/ \E to \in BOOLEAN : ReadFresh(b, to) /\ act' = [a |-> "Read", x |-> b, to |-> to]
-Next == Arrive \/ Read
+\* An earlier connection of the same peer is closed by the server now: the peer had connected again from the same remote
+\* address (same source port) before the server noticed that the old connection was dead.  Sessions are stored by remote
+\* address; closing a connection removes the session only while it still belongs to that connection (guard
+\* session_removed_by_owner_only).  Without the guard this connection loses its keys and delivers ciphertext.
+OldClosed == /\ act.a = "Arrive"
+             /\ act' = [a |-> "OldClosed", x |-> 0, to |-> FALSE]
+             /\ desync' = (desync \/ "session_removed_by_owner_only" \in Weak)
+             /\ UNCHANGED <<msgs, arrived, taken, consumed, ctr, rem, hasRem, delivered, holes, res>>
+Next == Arrive \/ Read \/ OldClosed
 Spec == Init /\ [][Next]_vars
 
 \* ---- the ideal reader (the monitor)
